@@ -174,4 +174,36 @@ Proof.
   intro R. destruct (sys_ok_run clean cf tr yinit y sys_ok_init R) as (C & _ & O).
   split; auto. intros h s k t G. eapply tok_fits_taint. eapply C; eauto.
 Qed.
+
+(* budget and outcome classification do not depend on what the cache says: they hold
+   for a call in any concurrent execution *)
+Ltac bleaf :=
+  simpl; repeat split; auto; try lia; try assumption; try (intros; discriminate);
+  try (eexists _, _, _; reflexivity);
+  try (eexists _, _, _, _; split; [reflexivity | first [left; reflexivity | right; eexists; eassumption]]);
+  try (eexists; split; reflexivity);
+  try (match goal with |- c_user ?x && c_pass ?x = false =>
+         destruct (c_user x), (c_pass x), (c_refresh x); simpl in *; congruence end).
+
+Ltac bcrush :=
+  repeat (match goal with
+  | |- context [match ?s with [] => _ | _ :: _ => _ end] => is_var s; destruct s as [|[| ? | ? | | ? | ] ?]
+  | |- context [if ?b then _ else _] => destruct b eqn:?
+  end; cbn beta iota); bleaf.
+
+Lemma do_request_rd_budget clean cf rq osch otok1 otok2 script :
+  let '(evs, op, r) := do_request_rd clean parse cf rq osch otok1 otok2 script in
+  (reg_sends evs <= 3)%nat /\ (fetches evs <= 1)%nat /\ outcome_ok parse cf rq evs r /\ stops_after_failure evs.
+Proof.
+  unfold do_request_rd.
+  destruct (match osch with
+            | Some SchBasic => _ | Some SchBearer => _ | _ => _ end) as [attempted a1].
+  destruct script as [|[| hdr | id | | sid | ] script1]; try (bleaf; fail).
+  destruct (parse hdr) as [[| |] ps] eqn:Ech; try (bleaf; fail).
+  - unfold fetch_basic, final_send. bcrush.
+  - set (scopes := if is_empty (get_param s_scope ps) then _ else _).
+    set (key := join [c_space] scopes).
+    cbv zeta. unfold fetch_bearer_plan, final_send.
+    destruct (if str_eqb key attempted then None else otok2 key) as [tok2|]; bcrush.
+Qed.
 End WithParse.
